@@ -320,9 +320,13 @@ func runC13(c *Ctx) {
 	} else {
 		for _, m := range c13Maxes {
 			jobs = append(jobs, c13Job{Kind: "startup", Max: m})
-			for _, comp := range []string{"", "lz4", "snappy"} {
-				for _, mode := range []string{"awaited", "pipelined"} {
-					jobs = append(jobs, c13Job{Kind: "orders", Max: m, Comp: comp, Mode: mode})
+			for rep := 0; rep < 240; rep++ { // the pipelined orders depend on timing inside the proxy: repeated
+				for _, comp := range []string{"", "lz4", "snappy"} {
+					for _, mode := range []string{"awaited", "pipelined"} {
+						if rep == 0 || mode == "pipelined" {
+							jobs = append(jobs, c13Job{Kind: "orders", Max: m, Comp: comp, Mode: mode})
+						}
+					}
 				}
 			}
 		}
